@@ -432,6 +432,7 @@ def _plainly_called(node: ast.Call) -> bool:
     largs = node.func.args  # type: ignore
     return (
         len(largs.args) == len(node.args)
+        and not any(isinstance(x, ast.Starred) for x in node.args)
         and len(node.keywords) == 0
         and not (largs.posonlyargs or largs.kwonlyargs or largs.vararg or largs.kwarg)
     )
